@@ -465,6 +465,9 @@ def rand_spec(rng, dmax=5, graded=None):
         # start 6 (d=3), 3 (d=2): the former fallback name e{2**d} is a blade; start 16-d: generator digit e
         spec = {'sig': sig, 'start': rng.choice((None, None, 0, 1, 2, 1 + d, 2 * d if d == 3 else 3, max(1, 16 - d)))}
     if graded if graded is not None else rng.random() < 0.3:
+        if 'fromname' in spec:                     # Algebra.fromname takes no options through algs.make_impl
+            pqr, basis = algs.NAMED[spec['fromname']]
+            spec = {'pqr': pqr, 'basis': list(basis)}
         spec['graded'] = True
     return spec
 
